@@ -287,6 +287,20 @@ impl<Ix: IndexType + Send + Sync> Machine for M<Ix> {
     fn check(&self, s: &St<Ix>) -> Result<(), StepErr> {
         self.battery(s)
     }
+    fn has_check_new(&self) -> bool {
+        true
+    }
+    fn check_new(&self, s: &St<Ix>) -> Result<(), StepErr> {
+        let na = self.node_args(&s.m);
+        on_ref!(s, g => {
+            crate::multi_iter_battery!(g, Ix, &na)?;
+            crate::iter_protocol_exact!("node_indices", g.node_indices())?;
+            crate::iter_protocol_exact!("edge_indices", g.edge_indices())?;
+            crate::iter_protocol_exact!("node_references", petgraph::visit::IntoNodeReferences::node_references(g))?;
+            crate::iter_protocol_exact!("edge_references", g.edge_references())?;
+            Ok(())
+        })
+    }
     fn ops(&self, s: &St<Ix>) -> Vec<Op> {
         let m = &s.m;
         let n = m.nodes.len();
